@@ -191,7 +191,9 @@ def expected(spec, doc):
                         for ti in range(spec['nt'])])
         out['%s_%s' % (b['cat'], t['name'])] = {
             'raw': raw.astype('f4'), 'scale': t['scale'], 'unit': t['unit'],
-            'cat': b['cat'], 'tid': b['tid'], 'base_unit': b['unit']}
+            'cat': b['cat'], 'tid': b['tid'], 'base_unit': b['unit'],
+            # first cell of the block's window, zero-based (I, J, L)
+            'start': [x - 1 for x in b.get('start', spec['start'])]}
     return out
 
 
@@ -205,6 +207,7 @@ def canon(f):
                 u = u.decode('ascii', 'replace')
             out[k] = {'data': np.array(v[...], dtype='f8'), 'unit': str(u).strip(),
                       'cat': str(getattr(v, 'category', '')).strip(), 'tid': int(v.tracerid),
+                      'start': [int(getattr(v, a, 0)) for a in ('STARTI', 'STARTJ', 'STARTK')],
                       'scale': float(getattr(v, 'scale', 1.0))}
     hdr = {'modelname': getattr(f, 'modelname', b''), 'modelres': list(np.asarray(f.modelres, 'f8')),
            'halfpolar': int(f.halfpolar), 'center180': int(f.center180)}
@@ -276,7 +279,8 @@ def gen_op(rng, st):
                     'scales': [rng.choice([1.0, 1e6, 1e3, 2.5]) for _ in range(8)],
                     # unscaled re-write from an in-memory copy that documents each
                     # tracer's table scale factor
-                    'rawvia': rng.choice(['reader', 'reader', 'copy-with-scale'])})
+                    'rawvia': rng.choice(['reader', 'reader', 'copy-with-scale']),
+                    'aux': rng.random() < 0.4})
         if rng.random() < 0.3:
             ops.append({'op': 'collect'})
     st.queue = ops
@@ -321,6 +325,9 @@ def _compare_scaled(st, f, got, what):
         if g['unit'] != e['unit']:
             _viol(st, 'bpch-read-differs', '%s: unit of %s is %r, tracer table says %r' % (
                 what, k, g['unit'], e['unit']), field='unit')
+        if 'start' in g and list(g['start']) != list(e['start']):
+            _viol(st, 'bpch-read-differs', '%s: window of %s starts at (I, J, L) = %s, the block '
+                  'header says %s (zero-based)' % (what, k, g['start'], e['start']), field='start')
         if g['cat'] != e['cat'] or g['tid'] != e['tid']:
             _viol(st, 'bpch-read-differs', '%s: %s has category/tracer %s/%s, expected %s/%s' % (
                 what, k, g['cat'], g['tid'], e['cat'], e['tid']), field='ids')
@@ -562,6 +569,15 @@ def apply(st, op):
                             g, k, 'd', v.dimensions, values=np.array(v[...], dtype='d'), **at)
             elif op.get('via') == 'copy':
                 g = g.copy()
+                if op.get('aux'):
+                    # the user adds a field of their own (no tracer id): not a punch-file
+                    # block, the writer leaves it out
+                    tk = [k for k, v in g.variables.items() if hasattr(v, 'tracerid')][0]
+                    tv = g.variables[tk]
+                    av = g.createVariable('MY_AUX_FIELD', 'f', tv.dimensions)
+                    av[...] = np.asarray(tv[...], dtype='f') * 0 + 7.
+                    av.units = 'hPa'
+                    w.probe('source_carries_a_non_tracer_variable')
             elif op.get('via') == 'slice':
                 g = g.sliceDimensions(time=slice(None))
             before = {k: np.array(v[...]) for k, v in g.variables.items()
